@@ -344,6 +344,7 @@ pub fn cli_roundtrip(rt: &tokio::runtime::Runtime, dir: &Path, case: &Case, agg:
         Ok(Ok(())) => {}
     }
     let bytes = std::fs::read(&arc).unwrap_or_default();
+    agg.distinct("archives", fnv(&bytes));
     if let Some((class, d)) = judge_archive(&bytes, &case.source, &case.cfg, &case.comp, case.hash_len, &[], judge) {
         agg.viol(&class, || detail(d));
         return;
@@ -365,10 +366,27 @@ pub fn cli_roundtrip(rt: &tokio::runtime::Runtime, dir: &Path, case: &Case, agg:
             let o = std::fs::read(&out).unwrap_or_default();
             if o != case.source {
                 agg.viol("success-with-wrong-output", || detail(json!({"output_len": o.len()})));
+                return;
             }
         }
     }
-    agg.distinct("archives", fnv(&bytes));
+    // the same clone over an existing, longer file (--force-create): exact length and bytes again
+    let mut junk = vec![0x5au8; case.source.len() + 37];
+    junk.extend_from_slice(b"stale tail");
+    std::fs::write(&out, &junk).unwrap();
+    let cargs: Vec<String> = vec!["bita".into(), "clone".into(), "--buffered-chunks".into(), case.buffers.to_string(), "--force-create".into(), arc.to_str().unwrap().into(), out.to_str().unwrap().into()];
+    if let Ok((cli::CommandOpts::Clone(copts), _)) = cli::parse_opts(cargs) {
+        match catch(|| rt.block_on(crate::clone_cmd::clone_cmd(copts))) {
+            Err(p) => agg.viol(&format!("panic@{}", panic_site(&p)), || detail(json!(p))),
+            Ok(Err(e)) => agg.viol("valid-clone-failed", || detail(json!(format!("over existing file: {e:#}")))),
+            Ok(Ok(())) => {
+                let o = std::fs::read(&out).unwrap_or_default();
+                if o != case.source {
+                    agg.viol("success-with-wrong-output", || detail(json!({"over_existing_longer_file": true, "output_len": o.len()})));
+                }
+            }
+        }
+    }
 }
 
 /// Library compress + judge (conformance + library clone) of one case.
@@ -482,6 +500,69 @@ pub fn sweep(rep: &mut Report, judge: Judge) {
         agg
     });
     rep.agg.merge(b);
+    break_even_leg(rep, judge);
+}
+
+/// The raw/compressed corner: chunks whose compressed form is EXACTLY as long as the chunk (and
+/// one byte shorter / longer), found by a bounded search with the independent codec's back-ends.
+fn break_even_leg(rep: &mut Report, judge: Judge) {
+    let comps = [Comp::Brotli(1), Comp::Brotli(6), Comp::Brotli(11), Comp::Zstd(1), Comp::Zstd(3), Comp::Lzma(1)];
+    let sizes = [48usize, 64, 100, 200, 300, 512, 2048];
+    let jobs: Vec<(usize, usize)> = (0..comps.len()).flat_map(|c| (0..sizes.len()).map(move |s| (c, s))).collect();
+    let (comps_ref, jobs_ref) = (&comps, &jobs);
+    let a = par_shards(jobs.len(), threads(), |j| {
+        let (ci, si) = jobs_ref[j];
+        let comp = &comps_ref[ci];
+        let n = sizes[si];
+        let mut agg = Agg::default();
+        let (ctype, level) = match comp {
+            Comp::Brotli(l) => (3u32, *l),
+            Comp::Zstd(l) => (2, *l),
+            Comp::Lzma(l) => (1, *l),
+            Comp::None => (0, 0),
+        };
+        // random prefix + zero tail: the compressed size falls as the tail grows; look for ==, -1, +1
+        let mut x: u32 = 0x1234_5678 ^ (j as u32 * 7919);
+        let rnd: Vec<u8> = (0..n).map(|_| { x ^= x << 13; x ^= x >> 17; x ^= x << 5; (x >> 8) as u8 }).collect();
+        let mut found: Vec<Vec<u8>> = vec![];
+        let mut have = [false; 3];
+        for k in 0..n {
+            let mut block = rnd[..n - k].to_vec();
+            block.resize(n, 0);
+            if let Ok(c) = codec::compress(ctype, level, &block) {
+                let d = c.len() as i64 - n as i64;
+                if (-1..=1).contains(&d) && !have[(d + 1) as usize] {
+                    have[(d + 1) as usize] = true;
+                    if d == 0 {
+                        agg.add("break_even_chunks_found", 1);
+                    }
+                    found.push(block);
+                }
+            }
+            if have.iter().all(|h| *h) {
+                break;
+            }
+        }
+        if found.is_empty() {
+            return agg;
+        }
+        // a source made of the found blocks (each one FixedSize chunk) plus an ordinary one
+        let mut source = vec![];
+        for b in &found {
+            source.extend_from_slice(b);
+        }
+        source.extend(std::iter::repeat(b'q').take(n));
+        let rt = tokio::runtime::Builder::new_current_thread().enable_all().build().unwrap();
+        let dir = scratch_dir("c01be");
+        let case = Case { cfg: Cfg::fixed(n), comp: comp.clone(), hash_len: 64, buffers: 2, source };
+        agg.add("library_roundtrips", 1);
+        agg.add("break_even_roundtrips", 2);
+        lib_roundtrip(&rt, &case, &mut agg, judge);
+        agg.add("cli_roundtrips", 1);
+        cli_roundtrip(&rt, dir.path(), &case, &mut agg, judge);
+        agg
+    });
+    rep.agg.merge(a);
 }
 
 pub fn c01(rep: &mut Report) {
